@@ -40,7 +40,9 @@ def gen_ops(seed, profile, nops):
 def run_impl(binary, ops, timeout=None):
     """returns (transcript lines, returncode, stderr tail)"""
     if timeout is None:
-        timeout = 150 + len(ops) // 10     # generous for the sanitized build; a hang is a result
+        # generous for the sanitized build on a loaded machine (a dump follows every mutation, so long
+        # sequences are quadratic); a hang is still a result, it just takes this long to report
+        timeout = 300 + len(ops) // 2
     try:
         p = subprocess.run([binary, "--autodump"], input="\n".join(ops) + "\n", capture_output=True, text=True,
                            timeout=timeout)
